@@ -210,6 +210,20 @@ func main() {
 					}
 					null.Close()
 					o["rounds_done"], o["fail"], o["statuses"], o["base_us"] = done, fail, counts, base.Microseconds()
+				case "sleep":
+					time.Sleep(time.Duration(hx.Int(op["ms"])) * time.Millisecond)
+				case "stallinit":
+					// the container stalls for a while (longer than any reasonable wait of the host) and then goes on by itself
+					ip := container.InitPidVerif(env)
+					syscall.Kill(ip, syscall.SIGSTOP)
+					go func(d time.Duration) { time.Sleep(d); syscall.Kill(ip, syscall.SIGCONT) }(time.Duration(hx.Int(op["ms"])) * time.Millisecond)
+				case "stopinit":
+					// the container stalls (stopped) ...
+					syscall.Kill(container.InitPidVerif(env), syscall.SIGSTOP)
+				case "continit":
+					// ... and goes on later
+					syscall.Kill(container.InitPidVerif(env), syscall.SIGCONT)
+					time.Sleep(50 * time.Millisecond)
 				case "killinit":
 					// the container dies under the host's feet: the transport is lost from now on
 					syscall.Kill(container.InitPidVerif(env), syscall.SIGKILL)
